@@ -1,7 +1,7 @@
 (* M-GITIGNORE: (1) a reference semantics of gitignore for the grammar of property C16
    (per-directory .gitignore files, last matching pattern wins, deeper files win, `!` negation,
-   directory-only `dir/`, anchoring `/x` and `a/b`, `*`, `?`, `**`; a path below an excluded directory
-   cannot be re-included), written from gitignore(5) / dir.c / wildmatch.c and validated against the
+   directory-only `dir/`, anchoring `/x` and `a/b`, `*`, `?`, `**`, backslash escapes, trailing blanks
+   removed unless escaped; a path below an excluded directory cannot be re-included), written from gitignore(5) / dir.c / wildmatch.c and validated against the
    real `git check-ignore` by its own differential test (vlib/c16.py);
    (2) xvc's editing of .gitignore files, from file/src/common/gitignore.rs as the code is now:
    update_dir_gitignores / update_file_gitignores (`/name/` in the parent's file for directory targets,
@@ -12,9 +12,13 @@
    of cmd_move (file/src/mv/mod.rs), build_gitignore (core/src/util/git.rs -> xvc_walker
    build_ignore_patterns: every .gitignore below the root merged into ONE rule set, whitelist first),
    and the initial root .gitignore (Gen/GitignoreInitial.v, regenerated from the source).
-   Boolean parameters: [fixed_P17] (locality test in IgnoreRules::check, repo-patches/51),
+   Boolean parameters: [fixed_P17] (locality test in IgnoreRules::check, repo-patches/51), [fixed_P35] (the
+   global patterns `.xvc` / `.git` are final in IgnoreRules::check, 9cb79112; [xvc_chk] = Walker check_str35),
    [fixed_P5] (cmd_move writes the rule for a renamed destination), [fixed_nl] (a rule block never
-   continues the user's unterminated last line).
+   continues the user's unterminated last line), [fixed_sn] (repo-patches/75: the written name is
+   escaped, [escape_name] = escape_gitignore_name), [fixed_em] (repo-patches/76: Git itself -- here the
+   reference semantics -- decides whether a path is ignored already; xvc's matcher only reports
+   whitelisting).
    Strings are byte lists; paths are lists of components below the repository root.
    No proofs in this file. *)
 From Coq Require Import List NArith Bool.
@@ -73,43 +77,66 @@ Fixpoint glines (s : bytes) : list bytes :=
          end
   end.
 
-Inductive gseg := GSS | GSG (g : bytes).              (* a `**` segment / a segment glob *)
+(* a pattern after lexing: `*`, `?`, an unescaped `/`, a literal byte (also `\x` for every x) *)
+Inductive gtok := TStar | TQ | TSlash | TLit (b : byte).
+Definition is_tslash (t : gtok) : bool := match t with TSlash => true | _ => false end.
+Definition is_tstar (t : gtok) : bool := match t with TStar => true | _ => false end.
+
+Inductive gseg := GSS | GSG (g : list gtok).          (* a `**` segment / a segment glob *)
 Record gpat := { g_neg : bool; g_dir : bool; g_anch : bool; g_segs : list gseg }.
 (* blank line or comment / outside the supported grammar / a pattern *)
 Inductive pline := LNone | LUnsup | LPat (p : gpat).
 
-(* bytes a supported pattern line may contain: everything except control characters, blank,
-   '[' ']' '\' (character classes, escapes and trailing-blank rules are outside the grammar) *)
-Definition ok_byte (b : byte) : bool :=
-  (32 <? b) && negb (N.eqb b c_lb) && negb (N.eqb b c_rb) && negb (N.eqb b c_bs) && negb (N.eqb b 127).
+Definition tok_of (c : byte) : gtok :=
+  if N.eqb c c_star then TStar else if N.eqb c c_q then TQ else if N.eqb c c_slash then TSlash else TLit c.
+Definition all_spaces (s : bytes) : bool := forallb (N.eqb c_space) s.
 
-(* split at '/' (always at least one piece) *)
-Fixpoint split_slash (s : bytes) : list bytes :=
+(* dir.c trim_trailing_spaces + the lexical layer of wildmatch.c: a backslash makes the next byte
+   literal; the final run of unescaped blanks is dropped; None = outside the grammar: an unescaped
+   '[' or ']' (character classes), a backslash at the end of the line or before '/', a NUL byte *)
+Fixpoint lex (s : bytes) : option (list gtok) :=
+  match s with
+  | [] => Some []
+  | c :: r =>
+    if N.eqb c c_bs then
+      match r with
+      | [] => None
+      | d :: r' => if N.eqb d c_slash || N.eqb d 0 then None
+                   else match lex r' with Some t => Some (TLit d :: t) | None => None end
+      end
+    else if N.eqb c c_space && all_spaces r then Some []
+    else if N.eqb c c_lb || N.eqb c c_rb || N.eqb c 0 then None
+    else match lex r with Some t => Some (tok_of c :: t) | None => None end
+  end.
+
+(* split at an unescaped '/' (always at least one piece) *)
+Fixpoint split_tslash (s : list gtok) : list (list gtok) :=
   match s with
   | [] => [[]]
   | x :: r =>
-    if N.eqb x c_slash then [] :: split_slash r
-    else match split_slash r with
+    if is_tslash x then [] :: split_tslash r
+    else match split_tslash r with
          | [] => [[x]]
          | h :: t => (x :: h) :: t
          end
   end.
 
 (* remove ONE trailing '/' (dir.c parse_path_pattern: PATTERN_FLAG_MUSTBEDIR) *)
-Fixpoint strip_trailing_slash (s : bytes) : bool * bytes :=
+Fixpoint strip_last_slash (s : list gtok) : bool * list gtok :=
   match s with
   | [] => (false, [])
-  | [x] => if N.eqb x c_slash then (true, []) else (false, [x])
-  | x :: r => let '(d, r') := strip_trailing_slash r in (d, x :: r')
+  | [x] => if is_tslash x then (true, []) else (false, [x])
+  | x :: r => let '(d, r') := strip_last_slash r in (d, x :: r')
   end.
 
 Definition is_empty (s : bytes) : bool := match s with [] => true | _ => false end.
-Definition star2 : bytes := [c_star; c_star].
+Definition is_nil (s : list gtok) : bool := match s with [] => true | _ => false end.
+Definition is_star2 (s : list gtok) : bool := match s with [TStar; TStar] => true | _ => false end.
 (* two stars in a row *)
-Fixpoint has_star2 (s : bytes) : bool :=
+Fixpoint has_star2 (s : list gtok) : bool :=
   match s with
   | a :: r => match r with
-              | b :: _ => (N.eqb a c_star && N.eqb b c_star) || has_star2 r
+              | b :: _ => (is_tstar a && is_tstar b) || has_star2 r
               | [] => false
               end
   | [] => false
@@ -117,44 +144,46 @@ Fixpoint has_star2 (s : bytes) : bool :=
 (* `**` glued to other characters of a component (`a**`, `**b`): wildmatch reads it as `*`, but the
    literal-prefix shortcut of dir.c match_pathname can turn what is left of `a**/d` into `**/d`;
    outside the grammar *)
-Definition bad_piece (s : bytes) : bool := has_star2 s && negb (bytes_eqb s star2).
+Definition bad_piece (s : list gtok) : bool := has_star2 s && negb (is_star2 s).
+
+Definition ends_cr (l : bytes) : bool := match last_byte l with Some b => N.eqb b c_cr | None => false end.
 
 Definition parse_line (l : bytes) : pline :=
   match l with
   | [] => LNone
   | c :: _ =>
     if N.eqb c c_hash then LNone
-    else if negb (forallb ok_byte l) then LUnsup
+    else if ends_cr l then LUnsup          (* Git drops a carriage return before the line break: outside the grammar *)
     else
       let '(neg, l1) := if N.eqb c c_bang then (true, tl l) else (false, l) in
-      let '(dir, l2) := strip_trailing_slash l1 in
-      if is_empty l2 then LNone
-      else
-        let anch := existsb (N.eqb c_slash) l2 in
-        let body := if starts_with c_slash l2 then tl l2 else l2 in
-        if anch then
-          let pieces := split_slash body in
-          if existsb is_empty pieces || existsb bad_piece pieces then LUnsup
+      match lex l1 with
+      | None => LUnsup
+      | Some t1 =>
+        let '(dir, t2) := strip_last_slash t1 in
+        if is_nil t2 then LNone
+        else if existsb is_tslash t2 then
+          let body := match t2 with TSlash :: b => b | _ => t2 end in
+          let pieces := split_tslash body in
+          if existsb is_nil pieces || existsb bad_piece pieces then LUnsup
           else LPat {| g_neg := neg; g_dir := dir; g_anch := true;
-                       g_segs := map (fun s => if bytes_eqb s star2 then GSS else GSG s) pieces |}
-        else if bad_piece body then LUnsup
-        else LPat {| g_neg := neg; g_dir := dir; g_anch := false; g_segs := [GSG body] |}
+                       g_segs := map (fun s => if is_star2 s then GSS else GSG s) pieces |}
+        else if bad_piece t2 then LUnsup
+        else LPat {| g_neg := neg; g_dir := dir; g_anch := false; g_segs := [GSG t2] |}
+      end
   end.
 
 Definition plines (c : bytes) : list pline := map parse_line (glines c).
 
-(* wildmatch inside one path component: '*' any run, '?' one byte, anything else itself *)
-Fixpoint wm (p s : bytes) {struct p} : bool :=
+(* wildmatch inside one path component: '*' any run, '?' one byte, a literal itself *)
+Fixpoint wm (p : list gtok) (s : bytes) {struct p} : bool :=
   match p with
   | [] => is_empty s
-  | c :: p' =>
-    if N.eqb c c_star then
+  | TStar :: p' =>
       (fix star (s : bytes) : bool :=
          wm p' s || match s with [] => false | _ :: s' => star s' end) s
-    else match s with
-         | [] => false
-         | x :: s' => (N.eqb c c_q || N.eqb c x) && wm p' s'
-         end
+  | TQ :: p' => match s with [] => false | _ :: s' => wm p' s' end
+  | TLit c :: p' => match s with [] => false | x :: s' => N.eqb c x && wm p' s' end
+  | TSlash :: _ => false
   end.
 
 (* an anchored pattern against the components relative to the directory of its .gitignore:
@@ -259,14 +288,28 @@ Definition block (ls : list bytes) (date : bytes) : bytes :=
 (* "## Path Contains final .." *)
 Definition weird_line : bytes := [35;35;32;80;97;116;104;32;67;111;110;116;97;105;110;115;32;102;105;110;97;108;32;46;46].
 
-Definition dir_item (d : gpath) : gpath * bytes :=
+(* escape_gitignore_name (repo-patches/75): a backslash before \ * ? [ ] and before a final blank;
+   `?` for a line break and for a final carriage return, which no pattern line can contain *)
+Definition needs_bs (b : byte) : bool :=
+  N.eqb b c_bs || N.eqb b c_star || N.eqb b c_q || N.eqb b c_lb || N.eqb b c_rb.
+Definition esc1 (b : byte) : bytes := if needs_bs b then [c_bs; b] else if N.eqb b c_nl then [c_q] else [b].
+Fixpoint escape_name (n : gname) : bytes :=
+  match n with
+  | [] => []
+  | [b] => if N.eqb b c_space then [c_bs; c_space] else if N.eqb b c_cr then [c_q] else esc1 b
+  | b :: r => esc1 b ++ escape_name r
+  end.
+(* the name as it is written into the line *)
+Definition wname (fixed_sn : bool) (n : gname) : bytes := if fixed_sn then escape_name n else n.
+
+Definition dir_item (fixed_sn : bool) (d : gpath) : gpath * bytes :=
   match split_last d with
-  | Some (par, n) => (par, [c_slash] ++ n ++ [c_slash])
+  | Some (par, n) => (par, [c_slash] ++ wname fixed_sn n ++ [c_slash])
   | None => ([], weird_line)
   end.
-Definition file_item (f : gpath) : gpath * bytes :=
+Definition file_item (fixed_sn : bool) (f : gpath) : gpath * bytes :=
   match split_last f with
-  | Some (par, n) => (par, c_slash :: n)
+  | Some (par, n) => (par, c_slash :: wname fixed_sn n)
   | None => ([], weird_line)
   end.
 
@@ -310,32 +353,43 @@ Variable build : env -> gfiles -> option RT.
 Variable chk : RT -> bytes -> verdict.
 Variable fixed_nl : bool.
 Variable fixed_P5 : bool.
+Variable fixed_sn : bool.
+Variable fixed_em : bool.
 
 Definition sep_for (old : bytes) : bytes := if fixed_nl && negb (ends_nl old) then [c_nl] else [].
 
 Definition write_blocks (gf : gfiles) (groups : list (gpath * list bytes)) (date : bytes) : gfiles :=
   fold_left (fun gf g => append_to gf (fst g) (sep_for (content gf (fst g)) ++ block (snd g) date)) groups gf.
 
-Definition keep_dirs (R : RT) (dirs : list gpath) : list gpath :=
-  filter (fun d => is_nomatch (chk R (dir_str d))) dirs.
-Definition keep_files (R : RT) (files : list gpath) : list gpath :=
-  filter (fun f => is_nomatch (chk R (render f))) files.
+(* does the path get a rule?  Without repo-patches/76: only when xvc's matcher says NoMatch.  With it
+   (paths_ignored_by_git: `git check-ignore --no-index` in the state [gf] -- the reference semantics):
+   when Git does not ignore the path yet, unless xvc's matcher says Whitelist (error, P26) *)
+Definition keep_dir (R : RT) (gf : gfiles) (d : gpath) : bool :=
+  if fixed_em then negb (ignored_dir gf d) && negb (is_whitelist (chk R (dir_str d)))
+  else is_nomatch (chk R (dir_str d)).
+Definition keep_file (R : RT) (gf : gfiles) (f : gpath) : bool :=
+  if fixed_em then negb (ignored gf f) && negb (is_whitelist (chk R (render f)))
+  else is_nomatch (chk R (render f)).
+Definition keep_dirs (R : RT) (gf : gfiles) (dirs : list gpath) : list gpath := filter (keep_dir R gf) dirs.
+Definition keep_files (R : RT) (gf : gfiles) (files : list gpath) : list gpath := filter (keep_file R gf) files.
 
 Definition update_dirs (R : RT) (gf : gfiles) (dirs : list gpath) (date : bytes) : gfiles :=
-  write_blocks gf (group (map dir_item (keep_dirs R dirs))) date.
+  write_blocks gf (group (map (dir_item fixed_sn) (keep_dirs R gf dirs))) date.
 Definition update_files (R : RT) (gf : gfiles) (files : list gpath) (date : bytes) : gfiles :=
-  write_blocks gf (group (map file_item (keep_files R files))) date.
+  write_blocks gf (group (map (file_item fixed_sn) (keep_files R gf files))) date.
 
-(* the receive loop of the handler thread: first arrival wins, only NoMatch under the rules as they
-   were when the thread started (directories are checked WITHOUT the final slash here) *)
+(* the receive loop of the handler thread: first arrival wins; under the rules as they were when the
+   thread started only NoMatch passes -- with repo-patches/76 everything but Whitelist, the decision
+   is taken when the rules are written (directories are checked WITHOUT the final slash here) *)
+Definition passes (v : verdict) : bool := if fixed_em then negb (is_whitelist v) else is_nomatch v.
 Fixpoint collect (R0 : RT) (ops : list iop) (ds fs : list gpath) : list gpath * list gpath :=
   match ops with
   | [] => (ds, fs)
   | IgnDir d :: r =>
-    if negb (mem_path d ds) && is_nomatch (chk R0 (render d)) then collect R0 r (ds ++ [d]) fs
+    if negb (mem_path d ds) && passes (chk R0 (render d)) then collect R0 r (ds ++ [d]) fs
     else collect R0 r ds fs
   | IgnFile f :: r =>
-    if negb (mem_path f fs) && is_nomatch (chk R0 (render f)) then collect R0 r ds (fs ++ [f])
+    if negb (mem_path f fs) && passes (chk R0 (render f)) then collect R0 r ds (fs ++ [f])
     else collect R0 r ds fs
   end.
 
@@ -414,8 +468,10 @@ Definition K_user_whitelist (gf : gfiles) (c : cmd) (f : gpath) : bool :=
     || is_whitelist (chk R (render f))
   end.
 
-(* K_engine_mismatch: xvc's matcher answers Ignore ("already ignored") where Git does not ignore *)
+(* K_engine_mismatch: xvc's matcher answers Ignore ("already ignored") where Git does not ignore;
+   empty with repo-patches/76, where that answer is no longer used *)
 Definition K_engine_mismatch (gf : gfiles) (c : cmd) (f : gpath) : bool :=
+  negb fixed_em &&
   match file_stage gf c with
   | None => false
   | Some (gf1, R, R0) =>
@@ -425,10 +481,33 @@ Definition K_engine_mismatch (gf : gfiles) (c : cmd) (f : gpath) : bool :=
 End Edit.
 
 (* ---- names and commands the theorems speak about ------------------------------------------------ *)
-(* a component that xvc can write as `/name` and Git reads back as the literal name *)
+(* a component that xvc can write UNESCAPED as `/name` and Git reads back as a pattern matching the name:
+   no control character, blank, '[' ']' '\', no `**` *)
+Definition ok_byte (b : byte) : bool :=
+  (32 <? b) && negb (N.eqb b c_lb) && negb (N.eqb b c_rb) && negb (N.eqb b c_bs) && negb (N.eqb b 127).
+Fixpoint has_star2b (s : bytes) : bool :=
+  match s with
+  | a :: r => match r with
+              | b :: _ => (N.eqb a c_star && N.eqb b c_star) || has_star2b r
+              | [] => false
+              end
+  | [] => false
+  end.
 Definition plain_name (n : gname) : bool :=
-  negb (is_empty n) && forallb ok_byte n && negb (existsb (N.eqb c_slash) n) && negb (has_star2 n).
+  negb (is_empty n) && forallb ok_byte n && negb (existsb (N.eqb c_slash) n) && negb (has_star2b n).
 Definition plain_path (p : gpath) : bool := negb (match p with [] => true | _ => false end) && forallb plain_name p.
+(* every name a file system can hold (a component of an XvcPath): not empty, no '/', no NUL *)
+Definition valid_name (n : gname) : bool :=
+  negb (is_empty n) && negb (existsb (N.eqb c_slash) n) && negb (existsb (N.eqb 0) n).
+Definition valid_path (p : gpath) : bool := negb (match p with [] => true | _ => false end) && forallb valid_name p.
+(* ... of which the escaped line matches nothing else: no line break, no final carriage return *)
+Definition strict_name (n : gname) : bool :=
+  valid_name n && negb (existsb (N.eqb c_nl) n) && negb (match last_byte n with Some b => N.eqb b c_cr | None => false end).
+(* the names the written line is right for: all of them with repo-patches/75, the plain ones without *)
+Definition name_ok (fixed_sn : bool) (n : gname) : bool := if fixed_sn then valid_name n else plain_name n.
+Definition path_ok (fixed_sn : bool) (p : gpath) : bool := if fixed_sn then valid_path p else plain_path p.
+(* the class `special-name`: a path outside; empty over valid paths with the repair *)
+Definition K_special_name (fixed_sn : bool) (p : gpath) : bool := negb (path_ok fixed_sn p).
 
 Definition op_path (o : iop) : gpath := match o with IgnDir d => d | IgnFile f => f end.
 Definition cmd_env (c : cmd) : env := match c with CTrack e _ _ => e | CHandler e _ => e | CMoveRename e _ => e end.
@@ -438,8 +517,9 @@ Definition cmd_paths (c : cmd) : list gpath :=
   | CHandler _ ops => map op_path ops
   | CMoveRename _ dests => dests
   end.
-(* all written names are plain, the date has no line break *)
-Definition wf_cmd (c : cmd) : bool := forallb plain_path (cmd_paths c) && negb (has_nl (e_date (cmd_env c))).
+(* all written names are right for the writer, the date has no line break *)
+Definition wf_cmd (fixed_sn : bool) (c : cmd) : bool :=
+  forallb (path_ok fixed_sn) (cmd_paths c) && negb (has_nl (e_date (cmd_env c))).
 (* every .gitignore is empty or ends with a line break *)
 Definition all_end_nl (gf : gfiles) : bool := forallb (fun kv => ends_nl (snd kv)) gf.
 
@@ -449,8 +529,10 @@ Definition children (dirs : list gpath) (p : gpath) : list gpath :=
 
 Section Real.
 Variable fixed_P17 : bool.
+(* 9cb79112 (P35, C09): IgnoreRules::check consults the Source::Global ignore patterns (`.xvc`, `.git`) first *)
+Variable fixed_P35 : bool.
 
-Definition xvc_chk (R : rules) (s : bytes) : verdict := check_str glob_matches fixed_P17 R s.
+Definition xvc_chk (R : rules) (s : bytes) : verdict := check_str35 glob_matches fixed_P17 fixed_P35 R s.
 
 (* build_ignore_patterns: dir_stack is a Vec used as a stack (head = top); the .gitignore of the
    popped directory is merged into the ONE shared rule set, then its sub-directories that the rules
@@ -474,8 +556,8 @@ Definition xvc_build (e : env) (gf : gfiles) : option rules :=
              (global_rules Gen.CommonIgnore.common_ignore_patterns).
 End Real.
 
-Definition xvc_run (fixed_P17 fixed_nl fixed_P5 : bool) : gfiles -> list cmd -> gfiles :=
-  run_cmds rules (xvc_build fixed_P17) (xvc_chk fixed_P17) fixed_nl fixed_P5.
+Definition xvc_run (fixed_P17 fixed_P35 fixed_nl fixed_P5 fixed_sn fixed_em : bool) : gfiles -> list cmd -> gfiles :=
+  run_cmds rules (xvc_build fixed_P17 fixed_P35) (xvc_chk fixed_P17 fixed_P35) fixed_nl fixed_P5 fixed_sn fixed_em.
 
 (* ---- the initial root .gitignore ---------------------------------------------------------------- *)
 Definition render_iseg (s : Gen.GitignoreInitial.seg) : bytes :=
